@@ -4,6 +4,14 @@ import ast, json, os, subprocess, sys
 root = sys.argv[1] if len(sys.argv) > 1 else '/repo'
 names = []
 nested = []
+constants = []
+attributes = set()
+params = {}
+
+
+def _params(fn):
+    a = fn.args
+    return [x.arg for x in a.posonlyargs + a.args + a.kwonlyargs] + ([a.vararg.arg] if a.vararg else []) + ([a.kwarg.arg] if a.kwarg else [])
 
 
 def walk_nested(fn, q):
@@ -27,15 +35,31 @@ for f in sorted(os.listdir(os.path.join(root, 'miros'))):
         continue
     t = ast.parse(open(os.path.join(root, 'miros', f), encoding='utf-8').read())
     mod = f[:-3]
+    attributes.update(n.attr for n in ast.walk(t) if isinstance(n, ast.Attribute))
+    attributes.update(n.args[1].value for n in ast.walk(t) if isinstance(n, ast.Call) and isinstance(n.func, ast.Name) and n.func.id in ('getattr', 'setattr', 'hasattr') and len(n.args) >= 2 and isinstance(n.args[1], ast.Constant) and isinstance(n.args[1].value, str))
+    for st in ast.walk(t):
+        if isinstance(st, ast.ClassDef):
+            for s2 in st.body:
+                if isinstance(s2, (ast.Assign, ast.AnnAssign)):
+                    for tg in (s2.targets if isinstance(s2, ast.Assign) else [s2.target]):
+                        if isinstance(tg, ast.Name):
+                            constants.append('%s.%s.%s' % (mod, st.name, tg.id))
+    for st in t.body:
+        for s2 in ([st] if isinstance(st, (ast.Assign, ast.AnnAssign)) else [x for x in ast.walk(st) if isinstance(x, (ast.Assign, ast.AnnAssign))] if isinstance(st, (ast.If, ast.Try)) else []):
+            for tg in (s2.targets if isinstance(s2, ast.Assign) else [s2.target]):
+                if isinstance(tg, ast.Name):
+                    constants.append('%s.%s' % (mod, tg.id))
     for st in t.body:
         if isinstance(st, ast.FunctionDef):
             names.append('%s.%s' % (mod, st.name))
+            params['%s.%s' % (mod, st.name)] = _params(st)
             walk_nested(st, '%s.%s' % (mod, st.name))
         elif isinstance(st, ast.ClassDef):
             for s2 in st.body:
                 if isinstance(s2, ast.FunctionDef):
                     names.append('%s.%s.%s' % (mod, st.name, s2.name))
+                    params['%s.%s.%s' % (mod, st.name, s2.name)] = _params(s2)
                     walk_nested(s2, '%s.%s.%s' % (mod, st.name, s2.name))
 commit = subprocess.run(['git', '-C', root, 'rev-parse', 'HEAD'], capture_output=True, text=True).stdout.strip()
-json.dump({'commit': commit, 'functions': sorted(set(names)), 'nested': sorted(set(nested))}, open(os.path.join(os.path.dirname(os.path.abspath(__file__)), '..', 'sa', 'baseline_names.json'), 'w'), indent=0)
+json.dump({'commit': commit, 'functions': sorted(set(names)), 'nested': sorted(set(nested)), 'constants': sorted(set(constants)), 'attributes': sorted(attributes), 'params': params}, open(os.path.join(os.path.dirname(os.path.abspath(__file__)), '..', 'sa', 'baseline_names.json'), 'w'), indent=0)
 print(len(set(names)), 'functions at', commit)
